@@ -128,6 +128,17 @@ class C01(WithEL):
     profile = {"w": {"setTimer": 5, "cancelTimer": 0, "send": 3, "broadcast": 2, "goto": 1, "setSpeed": 0.5,
                      "setRange": 0, "gotoGeo": 0}}
 
+    def tweak(self, r, scn):
+        if r.random() < 0.3:
+            # far regime: timeline around 2^31 ticks; "one tick in the past" is then only 5e-10 away
+            # relatively - it must still be refused
+            simgen.set_handler(scn["cfg"], "mobility", False)
+            scn["profile"]["base"] = 2 ** 31
+            scn["profile"]["offsets"] = [0, 0, 1, 512, 1024, 1024, 2048, -1, -1, -512]
+            if scn["cfg"]["duration"] is not None:
+                scn["cfg"]["duration"] += 2 ** 31
+        return scn
+
     def obs(self, case, res):
         cbs = parse(res["trace"])
         times = sorted(cb_tuple(c) + [[r[0], r[1]] for r in c["reqs"] if r[0][0] == "setTimer"] for c in cbs)
